@@ -1,5 +1,6 @@
 import Driver.Util
 import Hv.Storage.Fault
+import Hv.Storage.DiskLemmas
 
 /-! Shared driver for the storage domains C02 / C03 / C25: replays an ops file produced from the
     strace log of the real writer (`harness/c02.go`) against the model of `Hv/Storage`.
@@ -95,10 +96,11 @@ structure DS where
   synced : List (Nat × List Op) := []   -- (index just after an fsync, entries loadable from the disk then), newest first
   tickSyncs : Bool := true      -- fileWriterHandler → chronicler.Sync → FileWriter.Sync → fsync, all present
   mres : List String := []      -- result text of each operation of `mops` (C25; "ok" otherwise)
-  fc : FCfg := ⟨true, false, false, false⟩
+  fc : FCfg := ⟨true, false, false, false, true, false⟩
   rs : List Res := []           -- results announced for the next region (C25)
   firstFault : Option String := none
   phantom : List Nat := []      -- header bytes of a block whose header write fails in this region (C25)
+  dur : Nat := 0                -- how many of `wr` a successful Sync/Close has acknowledged (C25)
   respec : Bool := false        -- the file was cut by hand: the next load defines the expected state
 
 def DS.mk' (s : DS) : Mk := fun es =>
@@ -120,6 +122,7 @@ def cellsOfKind (s : DS) (kind : String) (len idx : Nat) : List Cell :=
   else if kind == "nm" then nmCells len
   else if kind.startsWith "bh:" then (hdrCells (s.block (kind.drop 3).toString)).take len
   else if kind.startsWith "bp:" then (payCells (s.block (kind.drop 3).toString)).take len
+  else if kind == "zero" then zeros len
   else (List.range len).map (Cell.junk idx)
 
 /-- the operation described by a `plant`/`log` line (fields after the verb) -/
@@ -256,6 +259,16 @@ def step (h : Hooks) (s0 : DS) (line : String) : DS × String :=
     if s.tickSyncs then
       (s, "tick " ++ showIndex ((List.range n).map fun i => (i + 1, 101 + i)))
     else (s, "tick -\t#F:C02-ack-not-durable")
+  | ["tick0", n] =>
+    let n := nat n
+    if s.tickSyncs then
+      (s, "tick " ++ showIndex ((List.range n).map fun i => (i + 1, 101 + i)))
+    else (s, "tick -\t#F:C02-ack-not-durable")
+  | ["tickdel", n] =>
+    let n := nat n
+    if s.tickSyncs then
+      (s, "tick " ++ showIndex ((List.range (n - 1)).map fun i => (i + 1, 101 + i)))
+    else (s, "tick -\t#F:C02-ack-not-durable")
   | "cfg" :: rest =>
     let kv := parseArgs rest
     let nl := nat (arg kv "nl")
@@ -272,6 +285,8 @@ def step (h : Hooks) (s0 : DS) (line : String) : DS × String :=
     let accepted := (ensureW s.cfg s.mdisk s.cs).isSome
     let spec := if accepted then Index.replay s.spec (its.map (·.1)) else s.spec
     ({ (s.push ops) with cs := cs1, spec := spec, wr := s.wr ++ its.map (·.1) }, "ok")
+  | ["act", "size", _] =>
+    (s, "ok " ++ (match s.mdisk.main with | some f => toString f.length | none => "-"))
   | ["act", "sync", _] =>
     let (cs1, ops) := cSync s.cfg s.mk' s.cs
     ({ (s.push ops) with cs := cs1 }, "ok ok")
@@ -324,6 +339,13 @@ def step (h : Hooks) (s0 : DS) (line : String) : DS × String :=
   | ["img", i, j, k] =>
     let (i, j, k) := (nat i, nat j, nat k)
     let img := s.image i j k
+    let ev := evalImage s img (h.expectAt s i j)
+    (s, pendingText s ++ ev.text ++ h.flagImg s ev i j k)
+  | ["img", i, j, k, z] =>
+    -- zero extension: the file size outlived the data
+    let (i, j, k) := (nat i, nat j, nat k)
+    let img0 := s.image i j k
+    let img := { img0 with main := img0.main.map (· ++ zeros (nat z)) }
     let ev := evalImage s img (h.expectAt s i j)
     (s, pendingText s ++ ev.text ++ h.flagImg s ev i j k)
   | ["end"] => (s, pendingText s ++ "end")
